@@ -69,8 +69,13 @@ MinFrac(S) == LET x == CHOOSE x \in S : TRUE IN
 D2PointPoly(P, poly) == MinFrac({D2PointSeg(P, poly[k], poly[k + 1]) : k \in 1..(Len(poly) - 1)})
 
 \* polylines whose legs have integer length (axis-aligned, 3-4-5 ...): curvilinear abscissa is rational
-IsSquare(n) == \E k \in 0..n : k * k = n
-ISqrt(n) == CHOOSE k \in 0..n : k * k = n
+\* integer square root by bisection (floor), n >= 0
+RECURSIVE SqrtBis(_, _, _)
+SqrtBis(n, lo, hi) == IF lo >= hi THEN lo
+                      ELSE LET mid == (lo + hi + 1) \div 2 IN IF mid * mid <= n THEN SqrtBis(n, mid, hi) ELSE SqrtBis(n, lo, mid - 1)
+FloorSqrt(n) == SqrtBis(n, 0, IF n < 46340 THEN n ELSE 46340)
+IsSquare(n) == LET r == FloorSqrt(n) IN r * r = n
+ISqrt(n) == FloorSqrt(n)
 LegLen(poly, i) == ISqrt(Dist2(poly[i], poly[i + 1]))
 IntLegs(poly) == \A i \in 1..(Len(poly) - 1) : IsSquare(Dist2(poly[i], poly[i + 1]))
 RECURSIVE CumLen(_, _)
